@@ -39,7 +39,14 @@ def malformed_docs(doc):
            ("used-int", dict(doc, used_choices=5)), ("used-of-ints", dict(doc, used_choices=[1, 2])),
            ("hooks-int", dict(doc, hooks=3)), ("hooks-str-list", dict(doc, hooks={"turn_end": "H1"})),
            ("passage-int", dict(doc, current_passage_id=5)), ("passage-list", dict(doc, current_passage_id=["Start"])),
-           ("string", "save"), ("none", None)]
+           ("string", "save"), ("none", None),
+           # wrong types that are falsy (an `x or default` would let them through)
+           ("state-zero", dict(doc, state=0)), ("state-empty-str", dict(doc, state="")), ("state-false", dict(doc, state=False)),
+           ("state-empty-list", dict(doc, state=[])), ("used-zero", dict(doc, used_choices=0)), ("used-empty-str", dict(doc, used_choices="")),
+           ("used-empty-dict", dict(doc, used_choices={})), ("used-false", dict(doc, used_choices=False)),
+           ("hooks-empty-list", dict(doc, hooks=[])), ("hooks-zero", dict(doc, hooks=0)), ("hooks-empty-str", dict(doc, hooks="")),
+           ("hooks-false", dict(doc, hooks=False)), ("passage-empty", dict(doc, current_passage_id="")), ("passage-none", dict(doc, current_passage_id=None)),
+           ("empty-dict", {})]
     return out
 
 
@@ -180,6 +187,12 @@ def saveload_family(rep, n_cases, n_ops, n_points, known_classes=(), nproc=16):
 # (names bound by import lines; text the player typed into @input forms): real code only
 
 SESSIONS = [
+    {"name": "non-finite floats",
+     "source": (":: Start\n~ limit = float('inf')\n~ floor_ = -float('inf')\n~ half = 0.5\n~ best = {'score': float('inf'), 'runs': [1.5, float('inf')]}\n~ gold = 3\nGate.\n+ [Enter] -> Hall\n\n"
+                ":: Hall\nGold {gold}, limit {limit}, half {half}.\n+ {gold < limit} [Earn] -> Earn\n+ {gold > floor_} [Look] -> Look\n+ {limit == 5} [Never] -> Hall\n\n"
+                ":: Earn\n~ gold = gold + 1\n~ limit = limit if gold < 5 else 5\nEarned: {gold} of {limit} ({best['score'] > gold}).\n+ [Back] -> Hall\n\n"
+                ":: Look\nBest {best['score']} {best['runs'][1] > 2} {type(limit).__name__} {half + 1}\n+ [Back] -> Hall\n"),
+     "pre": [("choose", 0)], "post": [("choose", 0), ("choose", 0), ("choose", 1), ("choose", 0), ("choose", 0), ("choose", 0), ("choose", 0)]},
     {"name": "imports",
      "source": ("import math\nimport json\nimport bardic.stdlib.dice as dice\nfrom bardic.stdlib.economy import Wallet\n"
                 ":: Start\n~ gold = 10\n~ purse = Wallet(5)\nAt the gate.\n+ [Enter] -> Hall\n\n"
